@@ -12,24 +12,24 @@ NA = {
 }
 PENDING = "check not built yet (framework under construction); planned static rule in DESIGN.md §6"
 TECH = {
-    "C01": "typestate: Observer slot automaton extracted from MIR by abstract interpretation, explored exhaustively; who-may-invoke; atomic-take and gate dominance rules",
-    "C02": "must-pass-through path rule on every complete-handler CFG (MIR) + serial provenance dataflow (terminal forwarding); counting clause: path-sensitive symbolic summary of each counting operator's item handler (affine integers, comparison guards, effect traces) explored as a transition system over every ordering of counter and bound and compared with the operator's table; capture analysis; item values/predicates not decided",
-    "C03": "ordering rule on the event-CFG (register-all-before-subscribe-any) + must-pass-through on combinator handlers",
-    "C04": "payload provenance dataflow (own error object reaches sink_error on every path), structural recovery recognition, who-originates-errors rule",
-    "C05": "ordering/typestate rule on Observer::unsubscribe (MIR paths + slot interpreter), gate dominance",
-    "C06": "pairing rule on all paths (upstream_abort_observe before early sink_complete), finalize shape and must-pass-through rules",
-    "C07": "lock-effect analysis: guard liveness dataflow on MIR x user-reachability over the resolved call graph x cell-instance identity (re-entrancy self-deadlock), leaf-lock rule, loop-poll rule",
-    "C08": "condvar/mutex discipline rules (monitor premises Q1-Q11) on the MIR: guard liveness, must-pass-through notify, dominance of the abort re-check, loop-exit structure, who-may-call",
-    "C17": "ownership analysis: discovery of closure-owns-its-receiver installations vs a reviewed table + cut obligations as path rules",
-    "C18": "lock-order/atomicity rules on ToVec::poll and the terminal callbacks (guard liveness + dominance); field-wise Clone (clones share the waker slot)",
-    "C09": "hand-off rules: exactly-one-post must-pass-through per handler, role agreement of the posted task's sink, payload provenance through captures, who-may-call abort",
-    "C10": "who-may-write + ordering rules on the Subject map (guard liveness, dominance, key provenance and value-source dataflow of the key counter), hot-constructor capture rule, field-wise Clone",
-    "C11": "atomicity rule: deciding cells acquired exactly once in write mode per body, no emission under the guard",
-    "C12": "who-may-write + snapshot-delivery + history-before-broadcast ordering rules, two-step-window atomicity (J8), hot-constructor capture rule",
-    "C13": "atomicity (test-and-set under one guard), who-may-write and role-agreement rules on publish/ref_count/replay",
-    "C15": "pairing rule: scheduler creation paired with abort wiring on all paths; who-may-spawn; worker loop exit structure",
-    "C19": "atomic-take and arbiter-ordering rules on Observer/FunctionWrapper MIR, slot typestate summaries, blocking-acquisition rule (no skipping try-lock)",
-    "C14": "capture/ownership analysis: interior-mutable leaves of every upvar type of every Observable::create closure",
+    "C01": "typestate: Observer slot automaton extracted from MIR by abstract interpretation, explored exhaustively; who-may-invoke; atomic-take and gate dominance rules; constructor/wiring rules (fresh slots, slot purity, initial state of the terminal flag, subscribe hands its callbacks straight to the Observer); clear() totality; no user code between fetch and call",
+    "C02": "must-pass-through path rule on every complete-handler CFG (MIR) + serial provenance dataflow (terminal forwarding); counting clause: path-sensitive symbolic summary of each counting operator's item handler (affine integers, comparison guards, effect traces) explored as a transition system over every ordering of counter and bound and compared with the operator's table; capture analysis; item values/predicates not decided; reference-machine comparison of each operator's extracted handler transitions (OPSEM), delegation comparison for operators written as pipelines, creation-function path languages (SRC), wiring rule on the operator methods/constructors (WIRE)",
+    "C03": "ordering rule on the event-CFG (register-all-before-subscribe-any) + must-pass-through on combinator handlers; reference machines for the gating operators and amb explored over interleavings (GATE, AMB), affine iteration-count analysis (observers registered = inputs subscribed = queues; pool consumption; input order), completion-kind table, trigger-before-source order, lazy-registration detection, wiring rule",
+    "C04": "payload provenance dataflow (own error object reaches sink_error on every path), structural recovery recognition, who-originates-errors rule; no-wrap rule on generic error constructors, no completion before the forwarded error, retry progression (affine attempt/limit), gating/amb reference machines for the error events",
+    "C05": "ordering/typestate rule on Observer::unsubscribe (MIR paths + slot interpreter), gate dominance; hook-store rule (setters keep their callback), initial-state and handoff-only rules on inner_subscribe, connect returns the source subscription",
+    "C06": "pairing rule on all paths (upstream_abort_observe before early sink_complete), finalize shape and must-pass-through rules; registered-observer rule (REG-ALL), relay purity of new_observer, take's counting clause, start_with re-check, amb losers cut, producer-loop polling",
+    "C07": "lock-effect analysis: guard liveness dataflow on MIR x user-reachability over the resolved call graph x cell-instance identity (re-entrancy self-deadlock), leaf-lock rule, loop-poll rule; wake-up protocol of the scheduler queue (notify / predicate / re-check / only the worker loop blocks), to_vec wake-up rules, register-first",
+    "C08": "condvar/mutex discipline rules (monitor premises Q1-Q11) on the MIR: guard liveness, must-pass-through notify, dominance of the abort re-check, loop-exit structure, who-may-call; who-may-stop, initial abort flag, wait-predicate polarity and emptiness, blocking-wait placement",
+    "C17": "ownership analysis: discovery of closure-owns-its-receiver installations vs a reviewed table + cut obligations as path rules; fresh-slot rule, register-first incl. lazy iterators, registered-observer rule, abort wiring, start_with re-check",
+    "C18": "lock-order/atomicity rules on ToVec::poll and the terminal callbacks (guard liveness + dominance); field-wise Clone (clones share the waker slot); initial state of done/err/waker, callback-after-terminal typestate, handoff-only rule on inner_subscribe",
+    "C09": "hand-off rules: exactly-one-post must-pass-through per handler, role agreement of the posted task's sink, payload provenance through captures, who-may-call abort; one scheduler per subscription created by the per-subscribe code, relay purity, error-handler ordering, wiring rule",
+    "C10": "who-may-write + ordering rules on the Subject map (guard liveness, dominance, key provenance and value-source dataflow of the key counter), hot-constructor capture rule, field-wise Clone; broadcast-reaches-every-observer rule, subjects' record/hand-over reference (SUBJ) incl. every container effect, take_last counting clause (AsyncSubject), initial state",
+    "C11": "atomicity rule: deciding cells acquired exactly once in write mode per body, no emission under the guard; amb reference machine, iteration-count analysis, completion-kind table, one-scheduler rule, every input's completion reaches the remove-and-test",
+    "C12": "who-may-write + snapshot-delivery + history-before-broadcast ordering rules, two-step-window atomicity (J8), hot-constructor capture rule; broadcast-reaches-every-observer rule, slot-call rule (no panicking call), initial state of the recorded terminal",
+    "C13": "atomicity (test-and-set under one guard), who-may-write and role-agreement rules on publish/ref_count/replay; connect/disconnect hooks stored and fed (HOOK-STORE, SUB), subjects' reference (SUBJ), registry emptied at terminals, wiring rule, initial state",
+    "C15": "pairing rule: scheduler creation paired with abort wiring on all paths; who-may-spawn; worker loop exit structure; wake-up / exit rules of the worker loop, initial state, hook-store, connect atomicity, register-first, early-stop pairing, re-entrancy under worker tasks",
+    "C19": "atomic-take and arbiter-ordering rules on Observer/FunctionWrapper MIR, slot typestate summaries, blocking-acquisition rule (no skipping try-lock); only error()/complete() invoke a terminal slot, clear() totality, slot purity/fresh cells shared by clones, initial state, no user code between fetch and call",
+    "C14": "capture/ownership analysis: interior-mutable leaves of every upvar type of every Observable::create closure; fresh-slot rule (an observer never empties a wrapper it was handed), key captured at subscription, registry emptied before notification",
 }
 NOTE = ("Decides necessary structural conditions on the MIR of /repo's current tree (all paths of every matching site); "
         "assumes A-item, A-sched, A-std, A-poison, A-build, A-internals (DESIGN.md §4); trusted base: rustc nightly MIR, "
